@@ -338,6 +338,7 @@ type run struct {
 	byAddr  map[string]string     // remote addr -> peer name
 	conns   map[string]*fakeConn
 
+	clock  int64 // virtual time the script has advanced to, in units
 	mu     sync.Mutex
 	dials  map[string][]*pendingDial // by peer name
 	nDials map[string]int
@@ -517,7 +518,13 @@ func (r *run) doStep(st stepJ) error {
 		}
 		c.remoteReset()
 	case "advance":
-		time.Sleep(time.Duration(st.D) * time.Millisecond / unitsPerMs)
+		// advance to an absolute target so that rounding never accumulates:
+		// the target is the first nanosecond at or after the unit boundary
+		r.clock += st.D
+		target := time.Duration((r.clock*1000000 + unitsPerMs - 1) / unitsPerMs)
+		if d := target - time.Since(r.tr.start); d > 0 {
+			time.Sleep(d)
+		}
 	case "write":
 		pl := r.plugins[st.Peer]
 		if pl == nil {
